@@ -90,6 +90,17 @@ pub mod utils;
 #[cfg(test)]
 mod mock;
 
+/// Verification hooks: re-exports of the crate-private multistream-select items for the
+/// external harness. Adds code only; absent without the `verif` feature.
+#[cfg(feature = "verif")]
+pub mod verif_multistream_select {
+    pub use crate::multistream_select::{
+        dialer_select_proto, listener_select_proto, webrtc_listener_negotiate, HandshakeResult,
+        HeaderLine, ListenerSelectResult, Message, Negotiated, NegotiationError, Protocol,
+        ProtocolError, Version, WebRtcDialerState,
+    };
+}
+
 /// Public result type used by the crate.
 pub type Result<T> = std::result::Result<T, error::Error>;
 
